@@ -13,7 +13,7 @@ func main() {
 	if len(os.Args) > 1 {
 		tier = os.Args[1]
 	}
-	e := checks.NewEnv("C16", tier, "exploration")
-	checks.C16(e)
+	e := checks.NewEnv("C15", tier, "exploration")
+	checks.C15(e)
 	os.Exit(e.Run.Finish())
 }
